@@ -29,7 +29,39 @@ fn same(a: &Res, b: &Res) -> bool {
 fn prepopulate(r: &mut Rng, a: &mut Allocator, flags: ClvmFlags, ctx: &mut Ctx) {
     let steps = r.range(1, 4);
     for _ in 0..steps {
-        match r.below(6) {
+        match r.below(8) {
+            6 | 7 => {
+                // skewed table shapes: many more atom-table entries than heap bytes (substring views), many more
+                // pairs than atoms, many inline atoms (ghost counters only), or one huge atom
+                let n = r.range(1500, 6000);
+                match r.below(4) {
+                    0 => {
+                        let base = a.new_atom(&[0x99; 64]).unwrap();
+                        for i in 0..n {
+                            let s = (i % 60) as u32;
+                            let _ = a.new_substr(base, s, s + 1 + (i % 3) as u32);
+                        }
+                        ctx.count("history_many_substring_views");
+                    }
+                    1 => {
+                        let mut x = a.nil();
+                        for _ in 0..n {
+                            x = a.new_pair(a.nil(), x).unwrap();
+                        }
+                        ctx.count("history_many_pairs");
+                    }
+                    2 => {
+                        for i in 0..n {
+                            let _ = a.new_small_number(i as u32);
+                        }
+                        ctx.count("history_many_inline_atoms");
+                    }
+                    _ => {
+                        let _ = a.new_atom(&vec![0x42; 300_000]);
+                        ctx.count("history_huge_atom");
+                    }
+                }
+            }
             0 => {
                 // random nodes
                 let mut f = Forest::new();
@@ -245,6 +277,24 @@ pub fn run(ctx: &mut Ctx) {
             }
             let mut r = ctx.rng(cid);
             check(ctx, &mut r, &f, *p, *e, fl, 0);
+        }
+    }
+    // the programs that force every outcome of a reclaiming restore (with and without ENABLE_GC)
+    {
+        let d4 = super::c04::directed(&mut f);
+        for (p, e) in &d4 {
+            for fl in [ClvmFlags::ENABLE_GC, ClvmFlags::ENABLE_GC | ClvmFlags::NEW_COST_MODEL, ClvmFlags::empty()] {
+                for _rep in 0..2 {
+                    let cid = DIRECTED | id;
+                    id += 1;
+                    if !ctx.want(cid) {
+                        continue;
+                    }
+                    let mut r = ctx.rng(cid);
+                    check(ctx, &mut r, &f, *p, *e, fl, 0);
+                    ctx.count("reclamation_programs");
+                }
+            }
         }
     }
     // every pool blob (valid and invalid) through the point-validating operators
